@@ -173,6 +173,10 @@ func check(c *pbt.Case, r *pbt.R) {
 		if got {
 			anyTrue = true
 		}
+		// IsAny with this single reference (after a nil one) is Is.
+		if ia, p := safeIsAny(e, nil, rf.n.Obj); p == "" && ia != got {
+			r.Failf("IsAny differs from the disjunction of Is", "IsAny(e, nil, r)=%v, Is(e, r)=%v\nr = %s layer %d (%s), %s\ne = %s", ia, got, rf.n.Ls[0].Spec, rf.n.I, rf.n.Layer().Typ, rf.from, c.Spec)
+		}
 		if we != nil && got {
 			wgot, p := safeIs(we, rf.n.Obj)
 			if p != "" {
